@@ -4,13 +4,19 @@ mod c17;
 mod fx;
 mod pal;
 mod pyoracle;
+mod replay;
 
 fn main() {
     let ctx = mc_core::Ctx::from_args();
+    if !matches!(ctx.prop.as_str(), "C15" | "C16" | "C17") {
+        mc_core::report::machinery_failure(&format!("mc-math does not serve {}", ctx.prop));
+    }
+    if let Some(p) = ctx.replay.clone() {
+        replay::run(&ctx, &p);
+    }
     match ctx.prop.as_str() {
         "C15" => c15::run(ctx),
         "C16" => c16::run(ctx),
-        "C17" => c17::run(ctx),
-        p => mc_core::report::machinery_failure(&format!("mc-math does not serve {p}")),
+        _ => c17::run(ctx),
     }
 }
